@@ -464,6 +464,18 @@ func (m *Machine) lazyInit(s *State, pkg *ssa.Package) {
 }
 
 func (m *Machine) globalObj(s *State, g *ssa.Global) int {
+	id := m.globalObj0(s, g)
+	if o, ok := s.heap[id]; ok {
+		if _, opaque := o.v.(Opaque); opaque && types.Identical(g.Type().(*types.Pointer).Elem(), types.Universe.Lookup("error").Type()) {
+			// an error-typed global whose initialiser was not interpreted (foreign package, shallow init)
+			// gets sentinel identity instead of an opaque value
+			s.heap[id] = &Obj{v: IfaceV{typ: types.Universe.Lookup("error").Type(), v: m.sentinelErr(g.String())}, epoch: s.epoch}
+		}
+	}
+	return id
+}
+
+func (m *Machine) globalObj0(s *State, g *ssa.Global) int {
 	if id, ok := m.globals[g]; ok {
 		if _, ok := s.heap[id]; ok {
 			return id
@@ -472,7 +484,12 @@ func (m *Machine) globalObj(s *State, g *ssa.Global) int {
 	if !strings.HasPrefix(g.Name(), "init$") {
 		m.lazyInit(s, g.Pkg)
 		if id, ok := m.globals[g]; ok {
-			if _, ok := s.heap[id]; ok {
+			if o, ok := s.heap[id]; ok {
+				// an error-typed global whose initialiser was not interpreted (foreign package, shallow
+				// init) gets sentinel identity instead of an opaque value
+				if _, opaque := o.v.(Opaque); opaque && types.Identical(g.Type().(*types.Pointer).Elem(), types.Universe.Lookup("error").Type()) {
+					s.heap[id] = &Obj{v: IfaceV{typ: types.Universe.Lookup("error").Type(), v: m.sentinelErr(g.String())}, epoch: s.epoch}
+				}
 				return id
 			}
 		}
